@@ -238,10 +238,93 @@ def run(ctx: Ctx) -> Outcome:
             mon = CreateMonitor(out, ctx)
             import accsession
             S.run_history(ctx, out, key, ns, [mon, accsession.AccessorTie(out)], weights=w, hist_id=h)
+    # (c) fault points: the creation fails in its LAST stage (the accessor's insert / the insert into the list in hand)
+    insert_fault_cases(ctx, out)
     # model side: generate_uuid / duplicate check on synthetic loaders derived from a real scan
     model_cases(ctx, out)
     del tie
     return out
+
+
+def insert_fault_cases(ctx: Ctx, out: Outcome, only: dict | None = None):
+    """"A creation that fails for any reason leaves the model exactly as before": here the reason is a fault in the
+    last stage of `ElementListCouplingMixin.create` — after the element was built, attached and indexed, the accessor's
+    `insert` (stage `accessor.insert`) or the insertion into the list object in hand (stage `list.insert`) raises an
+    injected exception (an ordinary one and `KeyboardInterrupt`).  Judged like every failed creation: bytes of every
+    fragment, the private indexes, and `by_uuid` of the requested id."""
+    import objops
+    from capellambse.model import _obj
+
+    keys = ["write"] if not ctx.thorough else ["write", "t52", "empty52", "libproj"]
+    for key in keys:
+        m = ol.load(ctx, key)
+        loader = m._loader
+        rng = random.Random(f"c04f:{ctx.seed}:{key}")
+        by_kind: dict[str, list] = {}
+        for r in objops.discover(m, rng, max_objs=ctx.pick(150, 400)):
+            if r.contain:
+                by_kind.setdefault(r.kind, []).append(r)
+        picks = []
+        for kind in sorted(by_kind):
+            rs = by_kind[kind]
+            rng.shuffle(rs)
+            picks += rs[:ctx.pick(3, 8)]
+        for rel in picks:
+            for stage in ("accessor.insert", "list.insert"):
+                for exc in (RuntimeError, KeyboardInterrupt):
+                    if only and (only.get("stage"), only.get("exc")) != (stage, exc.__name__):
+                        continue
+                    try:
+                        lst = rel.get()
+                    except Exception:  # noqa: BLE001
+                        continue
+                    if getattr(lst, "fixed_length", 0) and len(lst) >= lst.fixed_length:
+                        continue
+                    want = "%08x-%04x-%04x-%04x-%012x" % (rng.getrandbits(32), rng.getrandbits(16), rng.getrandbits(16), rng.getrandbits(16), rng.getrandbits(48))
+                    h0, d0 = ol.frag_hashes(loader), ol.index_dump(loader)
+                    cls, name = (type(rel.acc), "insert") if stage == "accessor.insert" else (_obj.ElementList, "insert")
+                    had = name in vars(cls)
+                    orig = getattr(cls, name)
+
+                    def boom(*a, _exc=exc, **k):
+                        raise _exc("injected fault")
+
+                    setattr(cls, name, boom)
+                    try:
+                        try:
+                            lst.create(name="verif fault", uuid=want)
+                            outcome = "ok"
+                        except BaseException as e:  # noqa: BLE001 - KeyboardInterrupt is one of the injected kinds
+                            outcome = type(e).__name__ if "injected fault" in str(e) else f"other:{type(e).__name__}"
+                    finally:
+                        if had:
+                            setattr(cls, name, orig)
+                        else:
+                            delattr(cls, name)
+                    label = f"insert-fault:{stage}:{exc.__name__}"
+                    out.case(("insert-fault", rel.kind, stage, exc.__name__, outcome.split(":")[0]),
+                             {"relation": rel.key(), "stage": stage, "exception": exc.__name__, "outcome": outcome}, outcome != "ok")
+                    out.hit(f"fault.{stage}.{'reached' if outcome == exc.__name__ else 'not-reached' if outcome == 'ok' else 'failed-earlier'}")
+                    if outcome == "ok":
+                        # this accessor's creation does not pass through the patched stage: the object exists now
+                        continue
+                    h1, d1 = ol.frag_hashes(loader), ol.index_dump(loader)
+                    rp = {"kind": "insert-fault", "model": key, "relation": rel.key(), "stage": stage, "exc": exc.__name__, "failure": None}
+                    if h1 != h0:
+                        sig = f"failed-create-changes-bytes|{label}"
+                        out.find(sig, f"{key}: {rel.key()}.create() failing in {stage} left fragments {[f for f in h0 if h0[f] != h1.get(f)]} changed", dict(rp, failure=sig))
+                    if d1 != d0:
+                        sig = f"failed-create-leaves-index-entry|{label}"
+                        extra = {f: sorted(set(d1[f]["idc"]) - set(d0[f]["idc"]))[:3] for f in d1 if d1[f]["idc"] != d0.get(f, {}).get("idc")}
+                        out.find(sig, f"{key}: {rel.key()}.create(uuid={want}) failing in {stage} left index entries behind: {extra}", dict(rp, failure=sig))
+                    try:
+                        ghost = m.by_uuid(want)
+                    except KeyError:
+                        ghost = None
+                    if ghost is not None:
+                        sig = f"failed-create-resolvable|{label}"
+                        out.find(sig, f"{key}: by_uuid({want}) succeeds after {rel.key()}.create() failed in {stage} (element attached: {ghost._element.getparent() is not None})", dict(rp, failure=sig))
+                    out.traces_validated += 1
 
 
 def model_cases(ctx: Ctx, out: Outcome):
@@ -356,6 +439,8 @@ def replay(ctx: Ctx, case: dict):
              "remove": 1, "setattr": 1, "clear": 0, "delete_referenced": 1}
         mon = CreateMonitor(out, ctx)
         S.run_history(ctx, out, case["model"], max(80, case.get("step", 0) + 1), [mon], weights=w, hist_id=case["hist"])
+    elif case.get("kind") == "insert-fault":
+        insert_fault_cases(ctx, out, only=case)
     else:
         model_cases(ctx, out)
     for f in out.findings:
